@@ -1,6 +1,6 @@
 (* C10 Wildcards and declared lengths resolve exactly. *)
 From Coq Require Import List String Ascii Arith.
-From PC Require Import Comp.Syntax Comp.Wild Comp.Compile Comp.WildProofs.
+From PC Require Import Comp.Syntax Comp.Wild Comp.Compile Comp.WildProofs Comp.OrderProofs.
 Import ListNotations.
 
 Theorem C10_wild_exact : forall ps L, count_wild ps = 1 -> sum_nums ps <= L ->
@@ -43,3 +43,23 @@ Theorem C10_composite_two_wild_rejected : forall c ctr a ps1 b ps2 d L,
   exists k, build_super c ctr (a ++ CNuc ps1 :: b ++ CNuc ps2 :: d) L = Err k.
 Proof. exact composite_two_wild_rejected. Qed.
 Print Assumptions C10_composite_two_wild_rejected.
+
+(* composite with a declared length: the '?' region takes exactly what the other items (compiled
+   on their own, without a declared length) leave, the total is the declared length, and the
+   region's constraint string is the one with that number written explicitly *)
+Theorem C10_composite_wild_exact : forall c ctr pre ps post L s anons ctr', count_wild ps = 1 ->
+  build_super c ctr (pre ++ CNuc ps :: post) (Some L) = OK (s, anons, ctr') ->
+  exists s0 anons0 ctr0 l, build_super c ctr (pre ++ post) None = OK (s0, anons0, ctr0) /\
+    s_len s0 + l = L /\ sum_nums ps <= l /\ s_len s = L /\ ctr' = S ctr0 /\
+    anons = anons0 ++ [(anon_name ctr0, {| b_len := l; b_const := build_const (l - sum_nums ps) ps; b_anon := true |})].
+Proof. exact composite_wild_exact. Qed.
+Print Assumptions C10_composite_wild_exact.
+
+(* every item of a composite keeps its written place; plain quoted regions keep their written
+   multiplicities (spec_anons) *)
+Theorem C10_composite_written_order : forall c ctr items len s anons ctr', build_super c ctr items len = OK (s, anons, ctr') ->
+  s_seqs s = spec_seqs (anon_name (ctr + count_plain items)) items ctr /\
+  exists tail, anons = spec_anons items ctr ++ tail /\ ctr' = ctr + count_plain items + List.length tail /\
+               (tail = [] \/ exists b, tail = [(anon_name (ctr + count_plain items), b)]).
+Proof. exact build_super_seqs. Qed.
+Print Assumptions C10_composite_written_order.
